@@ -12,17 +12,14 @@ class C25(Spec):
     quick_timeout = 600
     thorough_timeout = 3600
     level_text = ("Lean theorems about the model of ProcessBlock / orphan pool / connectBestChain / reorganizeChain: for EVERY "
-                  "finite tree of valid blocks and EVERY delivery sequence over it (any order, duplicates) that contains "
-                  "each block, if the heaviest block is unique and at least the margin above the finalised height then the "
-                  "best chain is its branch and the persisted main-chain state equals that of a fresh node fed only that "
-                  "branch in order (order_independent); plus reorg_lands, tip_is_max, the orphan lemma and "
-                  "connect/disconnect inverse, proved by induction over an invariant that holds for any delivered blocks. "
-                  "The model is tied to blockchain/ by a differential run: generated block trees "
-                  "above a short trunk are minted on a producer testnode and delivered in generated orders (children before "
-                  "parents, duplicates, interleaved branches) to fresh non-mining testnodes; per delivery the result and tip, "
-                  "and per case height->hash, every total difficulty, orphan-pool membership, tx-index lookups and the "
-                  "sequence log are compared with the Lean driver; the property predicate (tip = unique heaviest eligible branch; persisted "
-                  "chain = fresh node fed the winning branch) is evaluated on the implementation.")
+                  "finite tree of valid blocks and EVERY delivery sequence over it (any order, duplicates) containing each "
+                  "block, if the heaviest block is unique and at least the margin above the finalised height, the best chain "
+                  "is its branch and height index, last height, tx index, stored blocks and total difficulties equal those of "
+                  "a fresh node fed only that branch in order (order_independent); plus reorg_lands, tip_is_max, the orphan "
+                  "lemma, connect/disconnect inverse. Tie: generated block trees above a short trunk minted on a producer "
+                  "testnode, delivered in generated orders to fresh non-mining testnodes; results, tip, height->hash, TDs, "
+                  "orphan pool, tx lookups, sequence log compared with the Lean driver; the property predicate (tip = unique "
+                  "heaviest eligible branch; persisted chain = fresh node fed the winning branch) evaluated on the implementation.")
     level_note = ("all delivered blocks are valid (execution succeeds); index/orphan cache limits, orphan expiry, restart, "
                   "EnableBestBlockCmp and a finaliser moving up during the run are outside the model (the model's downward "
                   "reset is covered); finalised height 0 (no finaliser configured) in the tie; the tx index is modelled as "
